@@ -583,14 +583,15 @@ Section WithCfg.
   Definition new_vec (v : nat) : M unit :=
     if esz cfg =? 0 then panic else set_handle v (Some Sentinel).
 
+  (* the local vector is dropped if the reservation unwinds (it is still never-allocated then) *)
   Definition with_capacity (v : nat) (c : Z) : M unit :=
-    new_vec v ;;; reserve_exact v c.
+    new_vec v ;;; on_unwind (reserve_exact v c) (set_handle v None).
 
   (* result code: 0 = Ok, 1 = Err(AlignmentTooSmall), 2 = Err(AlignmentNotDivisibleByTwo) *)
   Definition with_alignment (v : nat) (c a : Z) : M Z :=
     if a <? max_align cfg then ret 1 else
     if negb (is_pow2 a) then ret 2 else
-    new_vec v ;;; grow v c a ;;; ret 0.
+    new_vec v ;;; on_unwind (grow v c a) (set_handle v None) ;;; ret 0.
 
   (* ------------------------------------------------------- slices of slots *)
 
